@@ -69,7 +69,7 @@ func jsonScalar(t *rapid.T, lim Limits) *refenc.JNode {
 		case 1:
 			ln = rapid.SampledFrom([]int{127, 128, 129, 16383, 16384, 16385}).Draw(t, "js_len")
 		case 2:
-			if lim.MaxBlob >= 70000 && rapid.IntRange(0, 3).Draw(t, "js_big") == 0 {
+			if lim.MaxBlob >= 70000 && !lim.SmallJSON && rapid.IntRange(0, 3).Draw(t, "js_big") == 0 {
 				ln = rapid.IntRange(65530, 70000).Draw(t, "js_len")
 			} else {
 				ln = rapid.IntRange(0, 300).Draw(t, "js_len")
@@ -190,7 +190,11 @@ func JSONDoc(t *rapid.T, lim Limits) *refenc.JNode {
 	budget := rapid.IntRange(1, 150).Draw(t, "jbudget")
 	root := jsonNode(t, 0, &budget, lim)
 	if root.K == refenc.JObject || root.K == refenc.JArray {
-		switch rapid.IntRange(0, 9).Draw(t, "jlarge") {
+		jl := rapid.IntRange(0, 9).Draw(t, "jlarge")
+		if lim.SmallJSON && jl == 0 {
+			jl = 1
+		}
+		switch jl {
 		case 0: // padded past 64 KiB
 			pad := &refenc.JNode{K: refenc.JString, S: refenc.Blob{K: 7, S: rapid.Uint32().Draw(t, "jpad_s"),
 				N: rapid.IntRange(65536, lim.MaxJSONKB*1024).Draw(t, "jpad_n")}}
